@@ -127,7 +127,7 @@ theorem fileScope_of {o : Opts} {files : List (List Message)} (h : csvUnambiguou
     o.degrees = false ∧ ∀ f ∈ files, FileScope f := by
   simp only [csvUnambiguousB, Bool.and_eq_true, Bool.not_eq_true', List.all_eq_true] at h
   refine ⟨h.1, fun f hf => ?_⟩
-  obtain ⟨⟨hshape, hm⟩, hdev⟩ := h.2 f hf
+  obtain ⟨⟨⟨hshape, hm⟩, hdev⟩, _⟩ := h.2 f hf
   simp only [devsOK, Bool.and_eq_true, List.all_eq_true] at hdev
   obtain ⟨⟨⟨d1, d2⟩, d3⟩, d4⟩ := hdev
   refine ⟨?_, fun m hmem => mesgScope_of (hm m hmem), d1, nodupB_nodup _ d2, nodupB_nodup _ d3, d4⟩
